@@ -526,11 +526,14 @@ def jax_tree_structure(x):
 
 
 def _setup_jax():
+    """JAX's persistent compilation cache is OFF by default: on this jax (0.5.2, CPU) another engine observed wrong
+    numbers coming out of cached executables (TFP log_prob values off by > 1 nat), and a check must never raise a
+    false alarm.  VERIF_JAXCACHE=1 turns it on for local experiments (it makes repeated runs ~5x faster)."""
     import os
     import jax
-    if not _RUNNERS:
-        d = os.path.join(os.path.dirname(os.path.dirname(os.path.abspath(__file__))), ".work", "jaxcache")
-        try:       # memoise XLA compilation across worker processes and runs (keyed by HLO: sound under source changes)
+    if not _RUNNERS and os.environ.get("VERIF_JAXCACHE") == "1":
+        d = os.path.join(os.environ.get("VERIF_WORK") or os.path.join(os.path.dirname(os.path.dirname(os.path.abspath(__file__))), ".work"), "jaxcache")
+        try:
             os.makedirs(d, exist_ok=True)
             jax.config.update("jax_compilation_cache_dir", d)
             jax.config.update("jax_persistent_cache_min_compile_time_secs", 0)
